@@ -1184,13 +1184,16 @@ func (w *_listpairsFieldListAssemblerRepr) AssembleValue() datamodel.NodeAssembl
 		return w.parent.AssembleKey()
 	case 2:
 		asm := w.parent.AssembleValue()
-		return assemblerRepr(asm.(*_assembler))
+		return assemblerRepr(asm) // (asm is an error assembler when the name is not a field)
 	default:
 		return _errorAssembler{fmt.Errorf("bindnode: too many values in listpairs field")}
 	}
 }
 
 func (w *_listpairsFieldListAssemblerRepr) Finish() error {
+	if w.idx < 2 {
+		return fmt.Errorf("bindnode: too few values in listpairs field: expected a [name, value] pair")
+	}
 	return nil
 }
 
